@@ -575,39 +575,73 @@ func (s *Sched) MarkClosed(ch interface{}) {
 	s.cur.vc.tick(s.cur.ID)
 }
 
-// MapKeys returns the keys of m in a canonical order (sorted by their printed
-// form, pointers by first registration); used for instrumented `range` over
-// maps so that Go's randomised order is owned by the explorer: the default
-// order is canonical, rotations are environment deviations.
-func MapKeys[M ~map[K]V, K comparable, V any](m M) []K {
+// MapItem is one entry of a map iteration snapshot.
+type MapItem[K comparable, V any] struct {
+	m map[K]V
+	K K
+}
+
+// Get returns the current value of the entry and whether it is still present.
+func (it MapItem[K, V]) Get() (V, bool) { v, ok := it.m[it.K]; return v, ok }
+
+// Live reports whether the entry is still present.
+func (it MapItem[K, V]) Live() bool { _, ok := it.m[it.K]; return ok }
+
+// MapIter replaces `range` over a map in instrumented code: it returns the
+// keys in an order owned by the explorer (Go's is random). The default order
+// is canonical (sorted); reversed order and rotations are environment
+// deviations. Entries deleted during the iteration are skipped by the
+// generated code through Get/Live, as the language requires.
+func MapIter[M ~map[K]V, K comparable, V any](m M) []MapItem[K, V] {
 	keys := make([]K, 0, len(m))
 	for k := range m {
 		keys = append(keys, k)
 	}
-	if len(keys) < 2 {
-		return keys
-	}
-	sort.Slice(keys, func(i, j int) bool { return keyLess(keys[i], keys[j]) })
-	if S != nil && !S.finishing {
-		n := len(keys)
-		opts := n + 1
-		if n == 2 {
-			opts = 2
-		}
-		// options: 0 = canonical, 1 = reversed, 2.. = rotations
-		c := S.Choose(opts, "maporder")
-		switch {
-		case c == 1:
-			for i, j := 0, n-1; i < j; i, j = i+1, j-1 {
-				keys[i], keys[j] = keys[j], keys[i]
+	if len(keys) >= 2 {
+		sort.Slice(keys, func(i, j int) bool { return keyLess(keys[i], keys[j]) })
+		if S != nil && !S.finishing && !S.cur.aborted {
+			n := len(keys)
+			opts := n + 1
+			if n == 2 {
+				opts = 2
 			}
-		case c >= 2:
-			r := c - 1
-			rot := append(append([]K{}, keys[r:]...), keys[:r]...)
-			keys = rot
+			// options: 0 = canonical, 1 = reversed, 2.. = rotations
+			c := S.Choose(opts, "maporder")
+			switch {
+			case c == 1:
+				for i, j := 0, n-1; i < j; i, j = i+1, j-1 {
+					keys[i], keys[j] = keys[j], keys[i]
+				}
+			case c >= 2:
+				r := c - 1
+				keys = append(append([]K{}, keys[r:]...), keys[:r]...)
+			}
 		}
 	}
-	return keys
+	items := make([]MapItem[K, V], len(keys))
+	for i, k := range keys {
+		items[i] = MapItem[K, V]{m: m, K: k}
+	}
+	return items
+}
+
+// Spawn replaces the go statement in instrumented code.
+func Spawn(site string, fn func()) {
+	if S == nil {
+		go fn()
+		return
+	}
+	if S.finishing || S.cur.aborted {
+		return
+	}
+	t := S.Go(site, fn)
+	t.Daemon = true
+}
+
+// Recv1 is a receive expression in single-value context.
+func Recv1[T any](ch <-chan T) T {
+	v, _ := Recv(ch)
+	return v
 }
 
 // PtrOrder may be set by a harness to order pointer-typed map keys.
